@@ -33,7 +33,8 @@ Toks == { <<60,97,62>>, <<60,47,97,62>>, <<60,98,62>>, <<60,47,98,62>>, <<60,97,
 \* tokens that matter inside one text run of an element (Mode "textrun": <a> + tokens [+ </a>])
 TextToks == { <<116>>, <<32>>, <<60,33,91,67,68,65,84,65,91,99,93,93,62>>, <<60,33,45,45,120,45,45,62>>,
               <<60,33,68,79,67,84,89,80,69,32,100,62>>, <<38,108,116,59>>, <<60,47,97,62>>,
-              <<195,160>>, <<194,160>>, <<208,160,32,195,133>> }       \* a-grave, NBSP, "Cyrillic-Er A-ring" (continuation bytes A0 / 85)
+              <<195,160>>, <<194,160>>, <<208,160,32,195,133>>,        \* a-grave, NBSP, "Cyrillic-Er A-ring" (continuation bytes A0 / 85)
+              <<38,59>> }                                              \* &;  (a reference with an EMPTY name reaches the entity resolver)
 
 \* Mode "nil": inside an element that carries a properly bound xsi:nil="true" (the deserializer treats its content as
 \* absent): what may nevertheless be there - text, CDATA, children (also nil ones), the end tag, more content after it
@@ -242,7 +243,15 @@ NilChild == << <<"Start", <<111>>, << << <<120,115,105,58,110,105,108>>, <<116,1
 \* (the prefix is bound on an ANCESTOR of the struct element - F33 wraps the struct in <w> - because the deserializer resolves
 \* the prefix of a replayed start tag in the scope of the reader's current position; see DESIGN 7.4)
 WithNil(T) == << <<"Start", T[1][2], Append(T[1][3], << <<120,109,108,110,115,58,120,115,105>>, XSI >>)>> >> \o SubSeq(T, 2, Len(T) - 2) \o NilChild \o SubSeq(T, Len(T) - 1, Len(T))
-TreeI == IF Mode = "interleave" /\ phase = 1 /\ ty = "F33" /\ "z" \in DOMAIN v.o[1][2].o[3][2] THEN WithNil(Tree) ELSE Tree
+\* An UNKNOWN child (ignored by the struct: IgnoredAny drops its subtree) takes part in the interleavings like any other child
+\* with a name of its own: once a list has been started it is buffered, later replayed and dropped FROM THE BUFFER.  Its
+\* descendants repeat its name two levels deep, so dropping it has to count nesting.   <zz><zz><zz></zz></zz>u</zz>
+ZZ == <<122, 122>>
+UnkChild == << <<"Start", ZZ, <<>>>>, <<"Start", ZZ, <<>>>>, <<"Start", ZZ, <<>>>>, <<"End", ZZ, <<>>>>, <<"End", ZZ, <<>>>>, <<"Text", <<117>>, <<>>>>, <<"End", ZZ, <<>>>> >>
+WithUnk(T) == SubSeq(T, 1, Len(T) - 1) \o UnkChild \o SubSeq(T, Len(T), Len(T))
+TreeI == IF Mode = "interleave" /\ phase = 1 /\ ty = "F33" /\ "z" \in DOMAIN v.o[1][2].o[3][2] THEN WithNil(Tree)
+         ELSE IF Mode = "interleave" /\ phase = 1 /\ ty \in {"F22", "F23", "F29"} /\ Len(Tree) > 2 THEN WithUnk(Tree)
+         ELSE Tree
 
 \* C20: interleavings keep the multiset of children and the order within each name
 Inv_Inter ==
@@ -255,7 +264,7 @@ Inv_Inter ==
 
 Inv_Emit ==
     Emit =>
-        CASE IsSoup -> PrintT(<<"REPLAY", ToJson([doc |-> doc])>>)
+        CASE IsSoup -> PrintT(<<"REPLAY", ToJson([doc |-> doc, dts |-> DocTypes(doc)])>>)
           [] Mode = "rewriteS" /\ phase = 1 ->
                 PrintT(<<"REPLAY", ToJson([ty |-> "dyn", schema |-> TheType, v |-> v, base |-> Base,
                                            docs |-> {RenderDoc(Tree, st) : st \in {x \in Rewrites(Tree, UnkOk) \cup Combos(Tree, UnkOk) : InvisibleToEvents(x)}},
